@@ -284,7 +284,19 @@ func init() {
 					stored[string(body.Array[1].Text)] = append([]byte{}, body.Array[2].Text...)
 					return &redis.RespValue{Type: redis.SimpleString, Text: []byte("OK")}
 				case "get":
-					v, ok := stored[string(body.Array[1].Text)]
+					// a third of the keys have moved: any node but their new home redirects, so the reply of one backend
+					// connection is handled on another one's reader while that one handles its own replies
+					key := body.Array[1].Text
+					h := 0
+					for _, c := range key {
+						h = h*31 + int(c)
+					}
+					if h%3 == 0 && workers > 1 {
+						if home := seeds[(h/3)%workers]; addr != home {
+							return &redis.RespValue{Type: redis.Error, Text: []byte("MOVED 1 " + home)}
+						}
+					}
+					v, ok := stored[string(key)]
 					if !ok {
 						return rBulk(nil)
 					}
